@@ -438,7 +438,7 @@ class Check:
             self.known_seen[k["id"]] += 1
             return False
         rid = len(self.violations) + 1
-        d = os.path.join(ROOT, "replay", "%s-%d" % (self.pid, min(rid, 40)))
+        d = os.path.join(os.environ.get("VERIF_REPLAY_DIR") or os.path.join(ROOT, "replay"), "%s-%d" % (self.pid, min(rid, 40)))
         if rid <= 40:       # replay material for the first 40 violations; the rest are counted
             shutil.rmtree(d, ignore_errors=True)
             os.makedirs(d, exist_ok=True)
@@ -468,8 +468,10 @@ class Check:
               "wall_s": round(time.time() - self.t0, 1), "violations": len(self.violations)}
         if not self.cov["samples"]:
             self.cov["samples"] = ["(no sample recorded)"]
-        os.makedirs(os.path.join(ROOT, "evidence"), exist_ok=True)
-        with open(os.path.join(ROOT, "evidence", "%s.json" % self.pid), "w") as f:
+        # (runs against other trees - seeded changes - set VERIF_EVIDENCE_DIR so that evidence/ keeps describing /repo)
+        evd = os.environ.get("VERIF_EVIDENCE_DIR") or os.path.join(ROOT, "evidence")
+        os.makedirs(evd, exist_ok=True)
+        with open(os.path.join(evd, "%s.json" % self.pid), "w") as f:
             json.dump(ev, f, indent=1, default=str)
         self.log("done: %d violation(s), %d known finding(s) reproduced" % (len(self.violations), len(self.known_seen)))
         return 1 if self.violations else 0
